@@ -6,6 +6,8 @@ C3 == {"t1", "t2", "t3"}
 R1 == [t \in C1 |-> "a"]
 R2 == [t \in C2 |-> IF t = "t1" THEN "a" ELSE "b"]
 R3 == [t \in C3 |-> IF t = "t1" THEN "a" ELSE IF t = "t2" THEN "b" ELSE "c"]
+P1 == {"p1"}
+P2 == {"p1", "p2"}
 NA == {"a"}
 NAB == {"a", "b"}
 IA == [r \in NA |-> "ia"]
